@@ -60,8 +60,9 @@ def usable_entries(max_inputs=8):
 
 
 class Gen:
-    def __init__(self, rnd, max_width=16, names=None, exclude=(), reserved_names=True):
+    def __init__(self, rnd, max_width=16, names=None, exclude=(), reserved_names=True, clock_domains=False):
         self.rnd = rnd
+        self.clock_domains = clock_domains     # sub-blocks may get their own ClockDriver on a 1-bit net of the parent
         self.reserved_names = reserved_names
         self._used = set()
         self.max_width = max_width
@@ -145,7 +146,12 @@ class Gen:
                     out_map[n] = o
                 if not out_map:
                     continue
-                sc['nodes'].append(dict(kind='sub', inst=self.fresh('u'), scope=sub, in_map=in_map, out_map=out_map))
+                node = dict(kind='sub', inst=self.fresh('u'), scope=sub, in_map=in_map, out_map=out_map)
+                if self.clock_domains and has_state(sub) and rnd.random() < 0.6:
+                    # a secondary clock domain: the driver's wire is an ordinary 1-bit net of the enclosing scope
+                    # (sometimes a wire the enclosing block cannot see at all: generation has to refuse that)
+                    node['clock'] = dict(name='clk2', net=None if rnd.random() < 0.25 else pick_net(1))
+                sc['nodes'].append(node)
             elif r < 0.20 and self.seq_entries:
                 e = rnd.choice(self.seq_entries)
                 cfgs = [c for c in e.quick if all(w <= self.max_width for w in list(e.ports(c)[0].values()) + list(e.ports(c)[1].values()))
@@ -230,6 +236,13 @@ def has_state(sc):
     return False
 
 
+def has_clock_domains(sc):
+    for n in sc['nodes']:
+        if n['kind'] == 'sub' and (n.get('clock') or has_clock_domains(n['scope'])):
+            return True
+    return False
+
+
 def count_nodes(sc):
     c = 0
     for n in sc['nodes']:
@@ -237,6 +250,12 @@ def count_nodes(sc):
         if n['kind'] == 'sub':
             c += count_nodes(n['scope'])
     return c
+
+
+def _top_of(o):
+    while getattr(o, 'parent', None) is not None:
+        o = o.parent
+    return o
 
 
 def _build_scope(owner, logic, sc, nets, order=None):
@@ -291,6 +310,10 @@ def _build_scope(owner, logic, sc, nets, order=None):
             _build_scope(obj, obj, sub, inner)
             for n in sub['outputs']:
                 obj.addOut(n, inner[n])
+            if node.get('clock'):
+                cn = node['clock']['net']
+                cw = nets[cn] if cn is not None else py4hw.Wire(_top_of(logic), 'far_clk_' + node['inst'], 1)
+                obj.clockDriver = py4hw.ClockDriver(node['clock']['name'], 25E6, wire=cw)
         else:
             raise ValueError(k)
 
@@ -342,4 +365,4 @@ def instantiate(plan, order=None):
         outs = [nets[n] for n in sc['outputs']]
         for w in outs:
             dut.addOut(w.name, w)
-    return cosim.Design(hw, dut, ins, outs, plan['name'], meta=dict(sequential=has_state(sc), nodes=count_nodes(sc)))
+    return cosim.Design(hw, dut, ins, outs, plan['name'], meta=dict(sequential=has_state(sc), nodes=count_nodes(sc), clock_domains=has_clock_domains(sc)))
